@@ -1,4 +1,5 @@
 SPECIFICATION Spec
+VIEW View
 CONSTANTS
   CapBytes = 7
   MaxData = 2
@@ -9,11 +10,12 @@ CONSTANTS
   ImportSplit = 2
   PopUnit = "host"
   StartUnit = "host"
-  Mode = "meta"
-  MaxStreams = 3
-  MaxPkts = 0
-  Sizes = {}
-  Steps = {}
+  MIds = {1, 2, 3}
+  MaxFiles = 3
+  MaxMerges = 2
+  HPats = {"p0", "p3", "mix"}
+  TPats = {"a0", "d2"}
+  HPatsLast = {"p3"}
+  TPatsLast = {"a0", "d2"}
   EmitK = 3
-  Exempt = FALSE
 INVARIANTS Check
